@@ -149,7 +149,65 @@ def fold(e, env, consts=None):
             return Opaque(name.split('.')[-1], tuple(f(a) for a in e.args), tuple(sorted((kw.arg, f(kw.value)) for kw in e.keywords if kw.arg)))
         if name in ('bool', 'int', 'str', 'len', 'tuple') and len(e.args) == 1 and not e.keywords:
             return {'bool': bool, 'int': int, 'str': str, 'len': len, 'tuple': tuple}[name](f(e.args[0]))
+        if name in ('zip', 'range', 'enumerate', 'sorted', 'reversed', 'list', 'dict', 'set', 'frozenset') and not e.keywords \
+                and not any(isinstance(a, ast.Starred) for a in e.args):
+            # pure builtins over constants (the tables a module computes once, at import)
+            args = [f(a) for a in e.args]
+            try:
+                r = {'zip': zip, 'range': range, 'enumerate': enumerate, 'sorted': sorted, 'reversed': reversed, 'list': list, 'dict': dict,
+                     'set': set, 'frozenset': frozenset}[name](*args)
+                if name in ('zip', 'range', 'enumerate', 'reversed'):
+                    r = list(r)
+                    if len(r) > 4096:
+                        raise Unknown('table too large')
+                return r
+            except (TypeError, ValueError):
+                raise Unknown('%s of %r' % (name, args))
         raise Unknown(k[:60])
+    if isinstance(e, (ast.ListComp, ast.SetComp, ast.DictComp, ast.GeneratorExp)):
+        out = []
+
+        def bind(t, v, env2):
+            if isinstance(t, ast.Name):
+                env2[t.id] = v
+            elif isinstance(t, (ast.Tuple, ast.List)):
+                vs = list(v)
+                if len(vs) != len(t.elts):
+                    raise Unknown('unpacking')
+                for tt, vv in zip(t.elts, vs):
+                    bind(tt, vv, env2)
+            else:
+                raise Unknown('comprehension target')
+
+        def rec(gens, env2):
+            if len(out) > 4096:
+                raise Unknown('table too large')
+            if not gens:
+                if isinstance(e, ast.DictComp):
+                    out.append((fold(e.key, env2, consts), fold(e.value, env2, consts)))
+                else:
+                    out.append(fold(e.elt, env2, consts))
+                return
+            g = gens[0]
+            it = fold(g.iter, env2, consts)
+            try:
+                items = list(it)
+            except TypeError:
+                raise Unknown('iteration over %r' % (it,))
+            for item in items:
+                e3 = dict(env2)
+                bind(g.target, item, e3)
+                if all(fold(c, e3, consts) for c in g.ifs):
+                    rec(gens[1:], e3)
+        rec(list(e.generators), dict(env))
+        try:
+            if isinstance(e, ast.DictComp):
+                return dict(out)
+            if isinstance(e, ast.SetComp):
+                return set(out)
+        except TypeError:
+            raise Unknown('unhashable')
+        return out
     if isinstance(e, ast.JoinedStr):
         out = ''
         for v in e.values:
